@@ -19,7 +19,7 @@ def run(tier: str) -> int:
         chk.model_violations.append("vacuity: shallow rate not distinguished by the heap model")
     # map-level operations, every game, several seeds (= orders of the whole catalogue)
     nseq = 6 if tier == "quick" else 60
-    scns = [{"id": f"s{i}", "game": g, "variant": i % 2} for g in list(GAMES) + ["base"] for i in range(nseq)]
+    scns = [{"id": f"s{i}", "game": g, "variant": i % 3} for g in list(GAMES) + ["base"] for i in range(nseq)]
     recs = pmap(drv.exec_ops, scns, chunk=1)
     # list-level operations: the histories of the Lists model, replayed as in C16
     tmp = Check("C16", tier)
